@@ -158,6 +158,12 @@ def gen_ring(rng, resolved=True, kinds=None):
         comps.append({"kind": "time", "start": 0, "steps": [rng.choice([1, 2])]})
         l = {"src": len(comps) - 1, "out": 0, "dst": rng.choice(tcs), "ads": [rng.choice([["lin"], ["prev"], ["scale"], ["next"], ["lin"]])]}
         links.insert(0 if rng.random() < 0.6 else len(links), l)
+    # start offsets (a component behind a delay adapter that starts later than its feeder: the delay adapter's
+    # clamp is the *feeder's* start)
+    if rng.random() < 0.3:
+        for c in comps:
+            if c["kind"] == "time" and rng.random() < 0.5:
+                c["start"] = rng.randint(1, 3)
     order = list(range(len(comps)))
     rng.shuffle(order)
     return {"comps": comps, "links": links, "order": order, "end": rng.randint(8, 24), "ring": {"resolved": resolved, "mode": mode}}
